@@ -160,8 +160,10 @@ func TestC07(t *testing.T) {
 		eval(t, graphCase{G: g, Tag: "exh:3-params:dotted-names"})
 		g.Names, g.Quote = 0, true
 		eval(t, graphCase{G: g, Tag: "exh:3-params:quotation-marks-around-references"})
+		g.Quote, g.Repeat = false, true
+		eval(t, graphCase{G: g, Tag: "exh:3-params:first-reference-written-twice"})
 	}
-	col.Exhaustive("all 512 reference structures on 3 parameters, with plain names, with dotted names n, n.n, n.n.n (concatenations of two names coincide for different pairs) and with quotation marks in the text around the references")
+	col.Exhaustive("all 512 reference structures on 3 parameters, with plain names, with dotted names n, n.n, n.n.n (concatenations of two names coincide for different pairs) with quotation marks in the text around the references, and with the first reference of every parameter written twice")
 	q.flush(t, 1)
 
 	// (a2) 3 services with up to 4 @-edges (all 256 subsets), edge kinds rotating
